@@ -1197,6 +1197,34 @@ def h_clone_result(ctx, p):
                 'len left unwritten (each stored element is cloned exactly once)', p)
 
 
+def h_clone_from(ctx, p):
+    """clone_from(&mut self, source): afterwards the receiver holds exactly what a clone of `source` holds.  Decided
+    for the form that builds a fresh copy (judged by the per-element schema of clone) and then exchanges it with the
+    old contents as a whole; an element-wise update in place is not decided (reported as unproven)."""
+    nm = 'clone_from'
+    ctx.classes['cloned'] += 1
+    ms = p.ms
+    srcs = [m for m in (p.subjects_all[1] if len(p.subjects_all) > 1 else [])] if getattr(p, 'subjects_all', None) else []
+    src = p.st.maps.get(srcs[0]) if len(srcs) == 1 else None
+    ok = ms is not None and src is not None and ms is not src
+    ctx.req('FLOW', ok, nm, 'cannot resolve receiver and source of clone_from', p)
+    if not ok:
+        return
+    fresh = getattr(ms, 'replaced', None) is not None and any(e[0] == 'replaced' and e[1] == p.mid for e in p.events)
+    E = p.E
+    E.oblig('OUT', fresh, nm, 'clone_from is decided only in the form "build a fresh copy, then exchange it with the old '
+            'contents as a whole"; this one updates the receiver in place: that it ends up holding exactly one clone of '
+            'every element of the source (also when a Clone panics part-way) is not established -- ' + p.describe(),
+            'unproven', props=sorted(ctx.props))
+    if not fresh:
+        return
+    ctx.req('OUT', p.z.entails_eq(ms.len, src.len), nm, 'after clone_from the receiver must have the length of the source', p)
+    ctx.req('OUT', not src.contents and not src.holes and not src.extras and p.z.entails_eq(src.len, src.len0), nm,
+            'clone_from must not change the source', p)
+    ctx.req('ONCE', not ms.extras and slots.empty(p.z, ms.extra_rng) and not ms.holes and slots.empty(p.z, ms.hole_rng), nm,
+            'the receiver must hold exactly len cloned elements', p)
+
+
 # ------------------------------------------------------------------------------ two-container quantifiers
 def _value_eq_answer(seg, X, h, Y, i, z):
     """answer of V::eq between the value of slot h of X and the value of slot i of Y in this segment"""
@@ -2900,6 +2928,8 @@ ITER_HOOKS = {
     (SET, 'From', 'from'): ({'C16', 'C12'}, lambda pr: bulk_iteration(pr, _pulled_any, _item_of_any), {'item', 'hit', 'append'}),
     (MAP, 'Clone', 'clone'): ({'C15'}, clone_iteration, {'element'}),
     (SET, 'Clone', 'clone'): ({'C15'}, clone_iteration, {'element'}),
+    (MAP, 'Clone', 'clone_from'): ({'C15'}, clone_iteration, {'element'}),
+    (SET, 'Clone', 'clone_from'): ({'C15'}, clone_iteration, {'element'}),
     (MAP, 'PartialEq', 'eq'): ({'C14'}, quantifier_iteration('eq'), {'continued'}),
     (SET, 'PartialEq', 'eq'): ({'C14'}, quantifier_iteration('seteq'), {'continued'}),
     (SET, None, 'is_subset'): ({'C08'}, quantifier_iteration('subset'), {'continued'}),
@@ -3169,8 +3199,8 @@ def unknown_override(body):
         return OVERRIDE_PROPS[k[0]]
     if k[0] in (MAP, SET) and k[1] == 'PartialEq' and k[2] != 'eq':
         return 'C14'       # a hand-written `ne`: its agreement with `!eq` is not established
-    if k[0] in (MAP, SET) and k[1] == 'Clone' and k[2] != 'clone':
-        return 'C15'       # a hand-written `clone_from`
+    if k[0] in (MAP, SET) and k[1] == 'Clone' and k[2] != 'clone' and k not in HANDLERS:
+        return 'C15'       # a hand-written Clone method other than clone / clone_from
     if k[0] in (MAP, SET) and k[1] in ('Serialize', 'Deserialize') and (k[1], k[2]) not in (
             ('Serialize', 'serialize'), ('Deserialize', 'deserialize')):
         return 'C20'       # e.g. a hand-written `deserialize_in_place`
@@ -3294,6 +3324,8 @@ HANDLERS.update({
     (SET, 'From', 'from'): ({'C16', 'C12'}, h_bulk_result),
     (MAP, 'Clone', 'clone'): ({'C15'}, h_clone_result),
     (SET, 'Clone', 'clone'): ({'C15'}, h_clone_result),
+    (MAP, 'Clone', 'clone_from'): ({'C15'}, h_clone_from),
+    (SET, 'Clone', 'clone_from'): ({'C15'}, h_clone_from),
     (MAP, 'PartialEq', 'eq'): ({'C14'}, h_quantifier('eq', 'either')),
     (SET, 'PartialEq', 'eq'): ({'C14'}, h_quantifier('seteq', 'either')),
     (SET, None, 'is_subset'): ({'C08'}, h_quantifier('subset', 'self')),
@@ -3355,6 +3387,9 @@ HANDLERS.update({
 
 
 CLASSES[(SET, 'Extend', 'extend')] = {'extended'}
+for _k in ((MAP, 'Clone', 'clone_from'), (SET, 'Clone', 'clone_from')):
+    OPTIONAL.add(_k)
+    CLASSES[_k] = {'cloned'}
 CLASSES[('&set::Set', 'Sub', 'sub')] = {'built'}
 # insert_unchecked: "full map, key present" is inside the contract: replacing must return normally there too
 CLASSES[(MAP, None, 'insert_unchecked')] = {'hit', 'append', 'append@last-slot', 'hit@no-append', 'hit@not-full'}
@@ -3549,8 +3584,10 @@ for _k in list(HANDLERS):
             or (_k[0] == OCC and _k[2] in ('key', 'get', 'get_mut', 'into_mut')) \
             or (_k[0] == ENT and _k[2] in ('or_insert', 'or_insert_with', 'or_insert_with_key', 'or_default')) \
             or _k == (VAC, None, 'insert') \
-            or (_k[0] in (ITER, ITERMUT, KEYS, VALUES, VALUESMUT, SETITER, DIFF, DIFFREF, INTER, UNION, SYMDIFF)
+            or (_k[0] in (ITER, ITERMUT, KEYS, VALUES, VALUESMUT, SETITER, DIFF, INTER, UNION, SYMDIFF)
                 and _k[1] == 'Iterator' and _k[2] == 'next'):
+        # (not DifferenceRef: a Set<&T> stores references and its iterator yields the stored elements themselves,
+        # by value -- they point wherever the caller's data lives)
         INSIDE_ROOTS.add(_k)
 
 UNWIND_HANDLERS.update({
